@@ -524,6 +524,8 @@ class Prov:
             return self.origin(e.args[1], fc, depth + 1, ch)
         if fn in ("reversed", "sorted", "list", "tuple", "iter", "set", "frozenset") and e.args:
             return self.origin(e.args[0], fc, depth + 1, ch)  # same elements, other order / container
+        if fn in ("filter", "itertools.filterfalse", "filterfalse", "itertools.takewhile", "itertools.dropwhile", "takewhile", "dropwhile") and len(e.args) == 2:
+            return self.origin(e.args[1], fc, depth + 1, ch)  # a selection of the same elements
         if fn == "next" and e.args:
             out = self.origin(e.args[0], fc, depth + 1, ch)
             if len(e.args) > 1:
